@@ -148,7 +148,7 @@ func (t *ttlAnalysis) sliceElemsChecked(fn *ssa.Function, S ssa.Value) bool {
 				walk(ap.Call.Args[0])
 				// appended values: a varargs slice literal
 				if elems, ok := sliceLiteralElems(ap.Call.Args[1]); ok {
-					s, live := t.flow(fn).Before(ap)
+					s, live := t.flow(ap.Parent()).Before(ap)
 					for _, e := range elems {
 						any = true
 						if live && !(s["T|"+ttlCanon(e)] || s["T|"+canon(e)]) && !t.checkedAfter(ap, e) {
@@ -159,6 +159,21 @@ func (t *ttlAnalysis) sliceElemsChecked(fn *ssa.Function, S ssa.Value) bool {
 					okAll = false
 				}
 				return
+			}
+			// a key list built by a first-party helper (keys := sourceKeys(m, args, ..)): what the helper returns
+			if cf := callee(x); cf != nil && firstParty(cf) && len(cf.Blocks) > 0 && cf != fn && len(seen) < 64 {
+				rets := 0
+				for _, b := range cf.Blocks {
+					if ret, ok := b.Instrs[len(b.Instrs)-1].(*ssa.Return); ok && len(ret.Results) >= 1 {
+						if _, isSl := ret.Results[0].Type().Underlying().(*types.Slice); isSl {
+							rets++
+							walk(ret.Results[0])
+						}
+					}
+				}
+				if rets > 0 {
+					return
+				}
 			}
 			okAll = false
 		case *ssa.Slice:
@@ -390,8 +405,159 @@ var rR21 = RuleRef{Name: "R21", Doc: "lazy expiry: every keyspace access that ob
 var overwriteCmds = []string{"set", "mset", "setex", "psetex", "getset", "rename", "sdiffstore", "sinterstore", "sunionstore"}
 
 // condKeyword: does the branch condition depend on a flag that is set under a comparison with the given option keyword?
+// flagBitTested: cond tests one constant bit of a flag word: flags&K != 0, or a first-party predicate has(flags, K)
+// whose body is that test.
+func flagBitTested(cond ssa.Value) (int64, bool) {
+	switch x := cond.(type) {
+	case *ssa.BinOp:
+		if x.Op != token.NEQ && x.Op != token.EQL {
+			return 0, false
+		}
+		for _, pair := range [][2]ssa.Value{{x.X, x.Y}, {x.Y, x.X}} {
+			and, ok := pair[0].(*ssa.BinOp)
+			if !ok || and.Op != token.AND {
+				continue
+			}
+			if z, ok := constInt(pair[1]); !ok || (z != 0 && x.Op == token.NEQ) {
+				continue
+			}
+			if k, ok := constInt(and.Y); ok && k > 0 && x.Op == token.NEQ {
+				return k, true
+			}
+			if k, ok := constInt(and.X); ok && k > 0 && x.Op == token.NEQ {
+				return k, true
+			}
+		}
+	case *ssa.Call:
+		cf := callee(x)
+		if cf == nil || len(cf.Blocks) == 0 || len(x.Call.Args) != 2 || !isBoolType(x.Type()) {
+			return 0, false
+		}
+		k, ok := constInt(x.Call.Args[1])
+		if !ok || k <= 0 {
+			return 0, false
+		}
+		// the body returns recv&arg != 0
+		for _, b := range cf.Blocks {
+			ret, ok := b.Instrs[len(b.Instrs)-1].(*ssa.Return)
+			if !ok || len(ret.Results) != 1 {
+				continue
+			}
+			ne, ok := ret.Results[0].(*ssa.BinOp)
+			if !ok || ne.Op != token.NEQ {
+				return 0, false
+			}
+			and, ok := ne.X.(*ssa.BinOp)
+			if !ok || and.Op != token.AND {
+				return 0, false
+			}
+			p0, p1 := ssa.Value(cf.Params[0]), ssa.Value(cf.Params[1])
+			// value receivers and parameters may be spilled to a local cell first
+			unspill := func(v ssa.Value) ssa.Value {
+				if u, ok := v.(*ssa.UnOp); ok && u.Op == token.MUL {
+					if al, ok := u.X.(*ssa.Alloc); ok {
+						if sv := singleStore(al); sv != nil {
+							return sv
+						}
+					}
+				}
+				return v
+			}
+			ax, ay := unspill(and.X), unspill(and.Y)
+			if !((ax == p0 && ay == p1) || (ax == p1 && ay == p0)) {
+				return 0, false
+			}
+			if z, ok := constInt(ne.Y); !ok || z != 0 {
+				return 0, false
+			}
+			return k, true
+		}
+	}
+	return 0, false
+}
+
+// keywordBits: the flag bits a package associates with an option word: the integer constants stored next to the word in
+// a lookup table (map literal keyed by the word), or or-ed into a flag word under a comparison with the word.
+func keywordBits(pkg *ssa.Package, kw string) map[int64]bool {
+	out := map[int64]bool{}
+	if pkg == nil {
+		return out
+	}
+	var fns []*ssa.Function
+	for _, m := range pkg.Members {
+		if fn, ok := m.(*ssa.Function); ok {
+			fns = append(fns, fn)
+			fns = append(fns, fn.AnonFuncs...)
+		}
+	}
+	for _, fn := range fns {
+		for _, b := range fn.Blocks {
+			for _, in := range b.Instrs {
+				switch x := in.(type) {
+				case *ssa.MapUpdate:
+					k, ok := constString(x.Key)
+					if !ok || !strings.EqualFold(k, kw) {
+						continue
+					}
+					if v, ok := constInt(x.Value); ok {
+						out[v] = true
+					}
+					// a record value: the integer constants stored into its fields
+					if ld, ok := x.Value.(*ssa.UnOp); ok {
+						if al, ok := ld.X.(*ssa.Alloc); ok && al.Referrers() != nil {
+							for _, r := range *al.Referrers() {
+								fa, ok := r.(*ssa.FieldAddr)
+								if !ok || fa.Referrers() == nil {
+									continue
+								}
+								for _, rr := range *fa.Referrers() {
+									if st, ok := rr.(*ssa.Store); ok && st.Addr == ssa.Value(fa) {
+										if v, ok := constInt(st.Val); ok && isIntType(st.Val.Type()) {
+											out[v] = true
+										}
+									}
+								}
+							}
+						}
+					}
+				case *ssa.BinOp:
+					if x.Op != token.OR {
+						continue
+					}
+					k, ok := constInt(x.Y)
+					if !ok {
+						continue
+					}
+					for d := b; d != nil; d = d.Idom() {
+						if id := d.Idom(); id != nil && len(id.Instrs) > 0 {
+							if iff, ok := id.Instrs[len(id.Instrs)-1].(*ssa.If); ok {
+								if bo, ok := iff.Cond.(*ssa.BinOp); ok && bo.Op == token.EQL && id.Succs[0] == d {
+									for _, side := range []ssa.Value{bo.X, bo.Y} {
+										if s, ok := constString(side); ok && strings.EqualFold(s, kw) {
+											out[k] = true
+										}
+									}
+								}
+							}
+						}
+					}
+				}
+			}
+		}
+	}
+	return out
+}
+
 func condKeyword(cond ssa.Value, kw string) bool {
 	found := false
+	// the option lives in one bit of a flag word
+	if k, ok := flagBitTested(cond); ok {
+		if in, ok := cond.(ssa.Instruction); ok && in.Parent() != nil && in.Parent().Pkg != nil {
+			if keywordBits(in.Parent().Pkg, kw)[k] {
+				return true
+			}
+		}
+	}
 	// a flag variable whose address sits in a lookup table under the keyword (opts := map[string]..{"keepttl": {&keepttl, ..}})
 	if u, ok := cond.(*ssa.UnOp); ok && u.Op == token.MUL {
 		if cell, ok := u.X.(*ssa.Alloc); ok && cell.Referrers() != nil {
